@@ -115,9 +115,29 @@ func genC12(t *rapid.T) C12Case {
 	}
 	c.Mode = rapid.SampledFrom([]string{"owned", "owned", "stress"}).Draw(t, "mode")
 	if c.Mode == "owned" {
-		c.Pause = rapid.IntRange(0, n-1).Draw(t, "pause")
-		c.Site = rapid.SampledFrom(c12Sites[c.Steps[c.Pause].Op]).Draw(t, "site")
-		c.Occ = rapid.IntRange(0, 3).Draw(t, "occ")
+		// dry sequential run recording which hook sites each step passes, so that the pause is
+		// drawn from sites that are really reached (construction, not rejection)
+		hits := c12SiteHits(c)
+		var withHits []int
+		for i, h := range hits {
+			if len(h) > 0 {
+				withHits = append(withHits, i)
+			}
+		}
+		if len(withHits) > 0 && rapid.IntRange(0, 9).Draw(t, "blind") != 0 {
+			c.Pause = rapid.SampledFrom(withHits).Draw(t, "pause")
+			k := rapid.IntRange(0, len(hits[c.Pause])-1).Draw(t, "hit")
+			c.Site = hits[c.Pause][k]
+			for j := 0; j < k; j++ {
+				if hits[c.Pause][j] == c.Site {
+					c.Occ++
+				}
+			}
+		} else {
+			c.Pause = rapid.IntRange(0, n-1).Draw(t, "pause")
+			c.Site = rapid.SampledFrom(c12Sites[c.Steps[c.Pause].Op]).Draw(t, "site")
+			c.Occ = rapid.IntRange(0, 3).Draw(t, "occ")
+		}
 	} else {
 		c.Readers = rapid.IntRange(1, 6).Draw(t, "readers")
 		c.Procs = rapid.SampledFrom([]int{1, 2, 4, 8, 16}).Draw(t, "procs")
@@ -157,6 +177,27 @@ func genC12(t *rapid.T) C12Case {
 		}
 	}
 	return c
+}
+
+// c12SiteHits runs the script sequentially and returns, per step, the hook sites passed in order.
+func c12SiteHits(c C12Case) [][]string {
+	hits := make([][]string, len(c.Steps))
+	cur := -1
+	u.VerifSetPoint(func(site string) {
+		if cur >= 0 {
+			hits[cur] = append(hits[cur], site)
+		}
+	})
+	defer u.VerifSetPoint(nil)
+	w := newWorld([]Cfg{c.Cfg})
+	for i, st := range c.Steps {
+		cur = i
+		if ce, oe := w.step(i, st); ce != nil || oe != nil {
+			break
+		}
+	}
+	cur = -1
+	return hits
 }
 
 // resolved query: concrete arguments
